@@ -24,7 +24,6 @@ import (
 	"runtime"
 	"slices"
 	"strings"
-	"sync"
 	"time"
 	"unsafe"
 
@@ -457,30 +456,19 @@ func (server *SugarDB) updateKeysInCache(ctx context.Context, keys []string) (in
 		}
 	}
 
-	wg := sync.WaitGroup{}
-	errChan := make(chan error)
-	doneChan := make(chan struct{})
-
+	// Bring every database back under the limit, one after the other, while the store lock is held.
+	// (The databases used to be handled by concurrent goroutines and the first error returned at once:
+	// the remaining goroutines then kept deleting keys after the lock had been released, and every
+	// goroutine passed the limit test before any of them had evicted anything.)
+	var firstErr error
 	for db, _ := range server.store {
-		wg.Add(1)
-		ctx := context.WithValue(ctx, "Database", db)
-		go func(ctx context.Context, database int, wg *sync.WaitGroup, errChan *chan error) {
-			if err := server.adjustMemoryUsage(ctx); err != nil {
-				*errChan <- fmt.Errorf("adjustMemoryUsage database %d, error: %v", database, err)
-			}
-			wg.Done()
-		}(ctx, db, &wg, &errChan)
+		dbCtx := context.WithValue(ctx, "Database", db)
+		if err := server.adjustMemoryUsage(dbCtx); err != nil && firstErr == nil {
+			firstErr = fmt.Errorf("adjustMemoryUsage database %d, error: %v", db, err)
+		}
 	}
-
-	go func() {
-		wg.Wait()
-		doneChan <- struct{}{}
-	}()
-
-	select {
-	case err := <-errChan:
-		return touchCounter, fmt.Errorf("adjustMemoryUsage error: %+v", err)
-	case <-doneChan:
+	if firstErr != nil {
+		return touchCounter, fmt.Errorf("adjustMemoryUsage error: %+v", firstErr)
 	}
 
 	return touchCounter, nil
